@@ -350,14 +350,16 @@ func universes() []universe {
 	tricks := func(s []string) []string { return append(append([]string{}, s...), ".", "..", "") }
 	if kit.Tier() == "thorough" {
 		return []universe{
-			{"abc-d3-g2", abc, 3, 2, kinds9, tricks(abc), 4},
-			{"ab-d3-g3", ab, 3, 3, kinds7, tricks(ab), 5},
-			{"abc-d2-g3", abc, 2, 3, kinds7, tricks(abc), 4},
+			{"abc-d3-g2-r5", abc, 3, 2, kinds9, tricks(abc), 5},
+			{"ab-d3-g3-r5", ab, 3, 3, kinds7, tricks(ab), 5},
+			{"abc-d2-g3-r5", abc, 2, 3, kinds7, tricks(abc), 5},
+			{"abc-d3-g3-r3", abc, 3, 3, kinds7, tricks(abc), 3},
 		}
 	}
 	return []universe{
-		{"ab-d2-g3", ab, 2, 3, kinds7, tricks(ab), 4},
-		{"ab-d3-g2", ab, 3, 2, kinds7, tricks(ab), 4},
+		{"ab-d2-g3-r4", ab, 2, 3, kinds7, tricks(ab), 4},
+		{"ab-d3-g2-r5", ab, 3, 2, kinds7, tricks(ab), 5},
+		{"abc-d2-g2-r4", abc, 2, 2, kinds7, tricks(abc), 4},
 	}
 }
 
@@ -523,7 +525,11 @@ func genDecideR(t *rapid.T) DecideCase {
 		if len(granted) > 0 && rapid.IntRange(0, 3).Draw(t, "near") > 0 {
 			p = append(p, granted[rapid.IntRange(0, len(granted)-1).Draw(t, "g")]...)
 		}
-		for k := rapid.IntRange(0, 4).Draw(t, "more"); k > 0 && len(p) < 9; k-- {
+		lo := 0
+		if len(p) == 0 {
+			lo = 1
+		}
+		for k := rapid.IntRange(lo, 4).Draw(t, "more"); k > 0 && len(p) < 9; k-- {
 			p = append(p, rseg.Draw(t, "rseg"))
 		}
 		c.Only = append(c.Only, "/"+strings.Join(p, "/"))
